@@ -12,6 +12,7 @@ package c15
 import (
 	"bufio"
 	"bytes"
+	"errors"
 	"fmt"
 	"io"
 	"net/http"
@@ -21,10 +22,12 @@ import (
 	"sync"
 	"sync/atomic"
 	"testing"
+	"time"
 
 	"github.com/google/martian/v3"
 	"github.com/google/martian/v3/api"
 	mlog "github.com/google/martian/v3/log"
+	"github.com/google/martian/v3/martianlog"
 	"github.com/google/martian/v3/messageview"
 	"github.com/google/martian/v3/proxyutil"
 	"pgregory.net/rapid"
@@ -33,8 +36,35 @@ import (
 	"verifharness/props/msggen"
 )
 
+// capture replaces martian's default log sink for the whole process: it
+// discards everything unless a case installs a receiver (the text logger's
+// DEFAULT log function writes through martian's log package).
+type captureLogger struct {
+	mu     sync.Mutex
+	active func(string)
+}
+
+func (c *captureLogger) Infof(format string, args ...interface{}) {
+	c.mu.Lock()
+	f := c.active
+	c.mu.Unlock()
+	if f != nil {
+		// what the stock logger does with its arguments: format them
+		f(fmt.Sprintf(format, args...))
+	}
+}
+func (c *captureLogger) Debugf(string, ...interface{}) {}
+func (c *captureLogger) Errorf(string, ...interface{}) {}
+func (c *captureLogger) set(f func(string)) {
+	c.mu.Lock()
+	c.active = f
+	c.mu.Unlock()
+}
+
+var capture = &captureLogger{}
+
 func TestMain(m *testing.M) {
-	mlog.SetLevel(mlog.Silent)
+	mlog.SetLogger(capture)
 	kit.Main(m, "C15")
 }
 
@@ -66,10 +96,21 @@ type Case struct {
 	// (http.NewRequest with a body it cannot size / proxyutil.NewResponse):
 	// "cl0" leaves ContentLength at 0, "cl-1" sets it to -1. Applies to
 	// Content-Length-framed messages with a body of at least one byte.
-	Built   string `json:"built,omitempty"`
-	Unknown bool   `json:"unknown,omitempty"` // request only: an upstream modifier made the length unknown (-1)
-	Proxy   bool   `json:"proxy,omitempty"`   // forward with WriteProxy instead of Write
-	Order   []int  `json:"order,omitempty"`   // stack: permutation of 0=har 1=marbl 2=text
+	Built string `json:"built,omitempty"`
+	// SinkFail (marbl): the k-th Write of the log sink fails (1-based; 0 =
+	// never); SinkFailForever: and every later one too. The exchange must
+	// still be forwarded, identically, within the liveness bound.
+	SinkFail        int  `json:"sink_fail,omitempty"`
+	SinkFailForever bool `json:"sink_fail_forever,omitempty"`
+	// DefaultSink (text logger): the logger keeps its default log function
+	// (martian's log.Infof) instead of an injected one.
+	DefaultSink bool `json:"default_sink,omitempty"`
+	// NilBody (responses without a body): Response.Body is nil, as a modifier
+	// that builds a response may leave it.
+	NilBody bool  `json:"nil_body,omitempty"`
+	Unknown bool  `json:"unknown,omitempty"` // request only: an upstream modifier made the length unknown (-1)
+	Proxy   bool  `json:"proxy,omitempty"`   // forward with WriteProxy instead of Write
+	Order   []int `json:"order,omitempty"`   // stack: permutation of 0=har 1=marbl 2=text
 }
 
 // ---------------------------------------------------------------- plumbing
@@ -84,6 +125,11 @@ type twin struct {
 // opaque hides the concrete type of a reader: net/http (and whoever builds
 // the message) cannot size the body.
 type opaque struct{ io.Reader }
+
+// nilBodyApplies: only a response that carries nothing can have a nil Body.
+func nilBodyApplies(c Case, m *msggen.Message) bool {
+	return c.NilBody && m.Spec.Response && len(m.Entity) == 0
+}
 
 // builtApplies: a message is built by a program (instead of parsed) only if it
 // is not chunked and has a body of at least one byte.
@@ -181,9 +227,13 @@ func parse(m *msggen.Message, unknown bool, built string) (*twin, error) {
 	return t, nil
 }
 
-func (t *twin) write(proxy bool) ([]byte, error) {
+func (t *twin) write(proxy bool) (out []byte, err error) {
 	var buf bytes.Buffer
-	var err error
+	defer func() {
+		if r := recover(); r != nil {
+			out, err = buf.Bytes(), fmt.Errorf("panic while the message is written: %v", r)
+		}
+	}()
 	switch {
 	case t.res != nil:
 		err = t.res.Write(&buf)
@@ -197,12 +247,18 @@ func (t *twin) write(proxy bool) ([]byte, error) {
 
 // countWriter is the marbl sink: it keeps nothing but the number of bytes.
 type countWriter struct {
-	n   int64
-	mu  sync.Mutex
-	ids map[string]int // frames per exchange: bytes 2..10 of a marbl frame are the first 8 characters of the context ID
+	failAt  int64 // the failAt-th Write fails (0 = never)
+	forever bool  // ... and all later ones
+	calls   int64
+	n       int64
+	mu      sync.Mutex
+	ids     map[string]int // frames per exchange: bytes 2..10 of a marbl frame are the first 8 characters of the context ID
 }
 
 func (w *countWriter) Write(p []byte) (int, error) {
+	if k := atomic.AddInt64(&w.calls, 1); w.failAt > 0 && (k == w.failAt || (w.forever && k > w.failAt)) {
+		return 0, errors.New("log sink: write failed")
+	}
 	atomic.AddInt64(&w.n, int64(len(p)))
 	if len(p) >= 10 {
 		w.mu.Lock()
@@ -240,6 +296,8 @@ func forwardShape(c Case, m *msggen.Message) string {
 		side = "response"
 	}
 	switch {
+	case nilBodyApplies(c, m):
+		return side + "-nil-body"
 	case !m.BodyOnWire || (len(m.Entity) == 0 && m.Framing != "chunked" && m.Framing != "close"):
 		return side + "-without-body"
 	case builtApplies(c.Built, m):
@@ -255,6 +313,9 @@ func forwardShape(c Case, m *msggen.Message) string {
 }
 
 func snapshotShape(m *msggen.Message) string {
+	if m.Method == "CONNECT" {
+		return "connect-request"
+	}
 	if m.TrailerPresent {
 		return m.Framing + "-with-trailers"
 	}
@@ -430,7 +491,36 @@ func withoutKeys(h http.Header, skip ...string) http.Header {
 
 // ---------------------------------------------------------------- the check
 
-func run(c Case) (v kit.Verdict) {
+// run decides one case. With a failing log sink the whole exchange runs under
+// the liveness bound: a logger that stops forwarding is a failure, not a hang.
+func run(c Case) kit.Verdict {
+	if c.SinkFail == 0 {
+		return runCase(c)
+	}
+	ch := make(chan kit.Verdict, 1)
+	go func() {
+		defer func() {
+			if r := recover(); r != nil {
+				ch <- kit.Failf("C15/panic/forward", "panic: %v", r)
+			}
+		}()
+		ch <- runCase(c)
+	}()
+	select {
+	case v := <-ch:
+		return v
+	case <-time.After(kit.T()):
+	}
+	select {
+	case v := <-ch:
+		kit.Inconclusive("forward")
+		return v
+	case <-time.After(3 * kit.T()):
+	}
+	return kit.Failf("C15/forward/marbl/sink-write-error/exchange-never-forwarded", "write %d of the marbl log sink failed (forever=%v); %v later the exchange has still not been logged and serialised: the logger blocks the forwarded message", c.SinkFail, c.SinkFailForever, 4*kit.T())
+}
+
+func runCase(c Case) (v kit.Verdict) {
 	m := msggen.Build(c.Msg)
 	ctl, err := parse(m, c.Unknown, c.Built)
 	if err != nil {
@@ -442,6 +532,9 @@ func run(c Case) (v kit.Verdict) {
 		return kit.Failf("C15/harness/generated-message-unparseable", "second parse: %v", err)
 	}
 	defer sub.remove()
+	if nilBodyApplies(c, m) {
+		ctl.res.Body, sub.res.Body = nil, nil
+	}
 	if c.Skip {
 		mark(c, ctl, sub)
 	}
@@ -449,10 +542,28 @@ func run(c Case) (v kit.Verdict) {
 	// One instance of each logger. For a response the loggers first handle the
 	// answered request (the exchange has a request phase), then the response.
 	ls := newLogset(c.Post, c.Body, c.HeadersOnly, c.Decode)
+	ls.mw.failAt, ls.mw.forever = int64(c.SinkFail), c.SinkFailForever
+	if c.DefaultSink {
+		// a logger left with its default log function writes through martian's log package
+		ls.text = martianlog.NewLogger()
+		ls.text.SetHeadersOnly(c.HeadersOnly)
+		ls.text.SetDecode(c.Decode)
+		capture.set(func(line string) {
+			if strings.Contains(line, strings.Repeat("-", 80)) {
+				ls.record(line)
+			}
+		})
+		defer capture.set(nil)
+	}
 	names := loggerNames(c.Logger, c.Order)
+	type logErr struct {
+		name string
+		err  error
+	}
+	var errs []logErr
 	note := func(err error) {
 		if err != nil {
-			kit.Note("forward", "a logger returned an error on some generated message (the forwarded bytes are still compared)")
+			kit.Note("forward", "a logger returned an error on some generated message")
 		}
 	}
 	if sub.res != nil {
@@ -467,16 +578,31 @@ func run(c Case) (v kit.Verdict) {
 	}
 	for _, name := range names {
 		before := ls.count(name)
-		note(ls.applyMsg(name, sub))
+		if err := ls.applyMsg(name, sub); err != nil {
+			note(err)
+			errs = append(errs, logErr{name, err})
+		}
 		if name == "text" && ls.count(name) == before+1 {
 			// the record just emitted must be this message
-			v = append(v, verifyTextRecord(c, m, sub, ls.lastRecord())...)
+			rec := ls.lastRecord()
+			if i := strings.Index(rec, "(MISSING)"); c.DefaultSink && i >= 3 && !bytes.Contains(m.Wire, []byte("(MISSING)")) {
+				i -= 3
+				v.Addf("C15/text-log/default-sink/percent-sign-rendered-as-format-verb", "the text logger's default log function passes the record as a FORMAT string: a '%%' of the message comes out as %q", rec[i:min(len(rec), i+24)])
+			} else {
+				v = append(v, verifyTextRecord(c, m, sub, rec)...)
+			}
 		}
 	}
 	if c.Logger == "snapshot" {
 		v = append(v, snapshot(c, m, sub)...)
 	}
 	skipped := func() kit.Verdict { return skipCheck(c, ls, names, sub, textBase) }
+	// A modifier error is not silent: proxy.go answers it with a 'Warning: 199
+	// "martian" ...' header on the message it forwards (proxyutil.Warning). A
+	// logger that fails on a message therefore changes the forwarded message.
+	for _, e := range errs {
+		v.Addf("C15/forward/"+e.name+"/"+errorCause(c, m, e.name)+"/logger-error-warning-header", "the %s logger returned %q for this message; the proxy then adds a Warning header to the message it forwards", e.name, e.err)
+	}
 
 	// forwarded bytes: subject versus unlogged control
 	//
@@ -576,6 +702,26 @@ func mark(c Case, ctl, sub *twin) {
 			f.ModifyRequest(sub.req)
 		}
 	}
+}
+
+// errorCause names what about the message a logger is most likely to have
+// stumbled over (the triggering shape of the signature).
+func errorCause(c Case, m *msggen.Message, name string) string {
+	switch {
+	case nilBodyApplies(c, m):
+		return "response-nil-body"
+	case name == "text" && c.HeadersOnly && c.Decode && m.Framing == "chunked" && m.Encoding != "":
+		return "headers-only-decode-of-chunked-coded-message"
+	case m.Spec.Body.Kind == "badform" && !m.Spec.Response:
+		return "unparseable-form"
+	case m.Spec.Encoding == "gzip-bad":
+		return "mislabelled-content-coding"
+	case m.Spec.Encoding == "deflate-zlib":
+		return "zlib-deflate"
+	case m.BadQuery:
+		return "query-rejected-by-net-url"
+	}
+	return forwardShape(c, m)
 }
 
 // probed lists the methods for which net/http decides the framing of a
@@ -756,7 +902,11 @@ func verifyRaw(clause string, m *msggen.Message, sub *twin, raw, trailerSection 
 		hdr, trailer, body, cl, te = req.Header, &req.Trailer, req.Body, req.ContentLength, req.TransferEncoding
 		startGot = fmt.Sprintf("%s %s %s host=%s", req.Method, req.RequestURI, req.Proto, req.Host)
 		// the snapshot writes the URL of the message it was given (made absolute by the proxy)
-		startExp = fmt.Sprintf("%s %s %s host=%s", m.Method, m.URL, m.Proto, m.Host)
+		target := m.URL
+		if m.Method == "CONNECT" {
+			target = m.Target // authority form
+		}
+		startExp = fmt.Sprintf("%s %s %s host=%s", m.Method, target, m.Proto, m.Host)
 		wantCL, wantTE = sub.req.ContentLength, sub.req.TransferEncoding
 	} else {
 		res, err := http.ReadResponse(br, sub.req)
@@ -840,7 +990,7 @@ func maxBody() int {
 
 func gen(t *rapid.T) Case {
 	c := Case{Logger: rapid.SampledFrom([]string{"har", "marbl", "text", "snapshot", "stack"}).Draw(t, "logger")}
-	o := msggen.Options{MaxBody: maxBody(), Corrupt: true, Unannounced: true, BadForms: true}
+	o := msggen.Options{MaxBody: maxBody(), Corrupt: true, Unannounced: true, BadForms: true, RawQuery: true, Reasons: true, MoreCodings: true, Connect: true}
 	if rapid.Bool().Draw(t, "response") {
 		c.Msg = msggen.DrawResponse(t, o, rapid.SampledFrom([]string{"GET", "GET", "POST", "HEAD"}).Draw(t, "req_method"))
 	} else {
@@ -852,6 +1002,16 @@ func gen(t *rapid.T) Case {
 	}
 	if c.Msg.Framing == "cl" && c.Msg.Body.Kind != "none" && !c.Unknown && rapid.IntRange(0, 5).Draw(t, "built") == 0 {
 		c.Built = rapid.SampledFrom([]string{"cl0", "cl-1"}).Draw(t, "built_length")
+	}
+	if c.Logger == "marbl" && rapid.IntRange(0, 3).Draw(t, "sink_fails") == 0 {
+		c.SinkFail = rapid.IntRange(1, 14).Draw(t, "sink_fail_at")
+		c.SinkFailForever = rapid.Bool().Draw(t, "sink_fail_forever")
+	}
+	if c.Logger == "text" {
+		c.DefaultSink = rapid.IntRange(0, 3).Draw(t, "default_sink") == 0
+	}
+	if c.Logger != "stack" && c.Msg.Response && (c.Msg.Body.Kind == "none" || c.Msg.ReqMethod == "HEAD") {
+		c.NilBody = rapid.IntRange(0, 3).Draw(t, "nil_body") == 0
 	}
 	c.Post, c.Body = drawHarOpt(t, "post"), drawHarOpt(t, "body")
 	c.HeadersOnly = rapid.IntRange(0, 3).Draw(t, "headers_only") == 0
@@ -934,6 +1094,27 @@ func classes(c Case) []string {
 	if c.Built != "" {
 		cl = append(cl, "built-"+c.Built)
 	}
+	if c.SinkFail > 0 {
+		cl = append(cl, "marbl-sink-write-fails")
+	}
+	if c.DefaultSink {
+		cl = append(cl, "text-default-sink")
+	}
+	if c.NilBody {
+		cl = append(cl, "response-nil-body")
+	}
+	if s.Method == "CONNECT" {
+		cl = append(cl, "connect-request")
+	}
+	if s.CustomReason {
+		cl = append(cl, "custom-reason-phrase")
+	}
+	for _, q := range s.Query {
+		if q.Bad {
+			cl = append(cl, "query-rejected-by-net-url")
+			break
+		}
+	}
 	if s.Body.Kind == "badform" && (c.Logger == "har" || c.Logger == "stack") && c.Post.Mode == "all" {
 		cl = append(cl, "unparseable-form-captured-by-har")
 	}
@@ -977,12 +1158,12 @@ var propForward = &kit.Prop[Case]{
 	Gates: map[string]float64{
 		"nontrivial": 0.5, "framing-chunked": 0.15, "trailers": 0.04, "encoded": 0.2, "skip-logging": 0.1,
 		"logger-har": 0.1, "logger-marbl": 0.1, "logger-text": 0.1, "logger-snapshot": 0.1, "logger-stack": 0.1,
-		"request": 0.3, "response": 0.3, "body>=4097": 0.15, "bodyless-post": 0.01, "skip-logging-between-request-and-response": 0.05, "mark-after-skip-logging": 0.03, "unannounced-trailers": 0.01, "built-cl0": 0.01, "built-cl-1": 0.01, "unparseable-form-captured-by-har": 0.003,
+		"request": 0.3, "response": 0.3, "body>=4097": 0.15, "bodyless-post": 0.01, "skip-logging-between-request-and-response": 0.05, "mark-after-skip-logging": 0.03, "unannounced-trailers": 0.01, "built-cl0": 0.01, "marbl-sink-write-fails": 0.03, "text-default-sink": 0.02, "response-nil-body": 0.005, "connect-request": 0.005, "custom-reason-phrase": 0.05, "query-rejected-by-net-url": 0.03, "built-cl-1": 0.01, "unparseable-form-captured-by-har": 0.003,
 	},
 }
 
 var propMatrix = &kit.Prop[Case]{
-	ID: "C15", Name: "matrix", Rule: "ALL combinations of logger x {request, response} x framing (none, Content-Length, chunked, chunked+trailers, close, answer to HEAD, 204) x body size {0, 1, 4097} x {identity, gzip} x skip-logging {off, before the exchange, between request and response phase (responses)} x method {GET, POST}; plus the skip-logging mark among other context marks (SkipRoundTrip, APIRequest, the real api.Forwarder) in 5 orders x 4 loggers x {request, response, response marked between the phases}, unannounced trailers x 5 loggers x {request, response}, messages built by a program with ContentLength 0 / -1 x 5 loggers x {request, response}, and 5 kinds of unparseable form bodies x Content-Length/chunked x {har, stack}: " + rule,
+	ID: "C15", Name: "matrix", Rule: "ALL combinations of logger x {request, response} x framing (none, Content-Length, chunked, chunked+trailers, close, answer to HEAD, 204) x body size {0, 1, 4097} x {identity, gzip} x skip-logging {off, before the exchange, between request and response phase (responses)} x method {GET, POST}; plus the skip-logging mark among other context marks (SkipRoundTrip, APIRequest, the real api.Forwarder) in 5 orders x 4 loggers x {request, response, response marked between the phases}, unannounced trailers x 5 loggers x {request, response}, messages built by a program with ContentLength 0 / -1 x 5 loggers x {request, response}, 5 kinds of unparseable form bodies x Content-Length/chunked x {har, stack}, and per logger: queries net/url rejects, 7 non-canonical reason phrases, x-gzip / zlib-deflate / mislabelled codings, CONNECT, a nil response body, a marbl sink failing at write 1/5/9/13 once or for good, the text logger's default sink: " + rule,
 	Run: run, NonTrivial: nontrivial, Classes: classes,
 }
 
@@ -1102,6 +1283,74 @@ func matrixExtra(yield func(Case) bool) {
 				if !yield(Case{Logger: logger, Post: all, Body: all, Order: []int{0, 1, 2}, Msg: spec}) {
 					return
 				}
+			}
+		}
+	}
+	// round 5: queries net/url rejects, reason phrases, a failing marbl sink, the
+	// text logger's default sink, CONNECT, a nil response body, more codings
+	for _, logger := range []string{"har", "marbl", "text", "snapshot", "stack"} {
+		base := Case{Logger: logger, Post: all, Body: all, Order: []int{0, 1, 2}}
+		var cs []Case
+		for _, raw := range []msggen.NV{{Raw: "a=1;b=2", Bad: true}, {Raw: "discount=100%", Bad: true}, {Raw: "next=%zz", Bad: true}, {Name: "token", Value: msggen.Val{Lit: "YWJjZA=="}, Raw: "token=YWJjZA=="}} {
+			c := base
+			c.Msg = reqSpec
+			c.Msg.Query = []msggen.NV{{Name: "x", Value: msggen.Val{Lit: "1"}}, raw}
+			cs = append(cs, c)
+		}
+		for _, r := range []struct {
+			code   int
+			reason string
+		}{{200, "Connection established"}, {404, "No Such Artifact"}, {200, "Ok"}, {302, "Moved Temporarily"}, {299, "Custom Status"}, {599, ""}, {200, ""}} {
+			c := base
+			c.Msg = resSpec
+			c.Msg.Status, c.Msg.Reason, c.Msg.CustomReason = r.code, r.reason, true
+			cs = append(cs, c)
+		}
+		for _, enc := range []string{"x-gzip", "deflate-zlib", "gzip-bad"} {
+			c := base
+			c.Msg, c.Decode = resSpec, true
+			c.Msg.Encoding = enc
+			cs = append(cs, c)
+		}
+		c := base
+		c.Msg = msggen.Spec{Method: "CONNECT", Host: "example.com:443", Framing: "none", Body: msggen.Body{Kind: "none"}}
+		cs = append(cs, c)
+		if logger != "stack" {
+			c = base
+			c.Msg, c.NilBody = msggen.Spec{Response: true, Status: 204, ReqMethod: "GET", Framing: "none", Body: msggen.Body{Kind: "none"}}, true
+			cs = append(cs, c)
+			// an answer to HEAD that announces chunked framing, Body nil
+			c.Msg, c.Decode = resSpec, true
+			c.Msg.ReqMethod, c.Msg.Framing = "HEAD", "chunked"
+			cs = append(cs, c)
+		}
+		if logger == "text" || logger == "stack" {
+			// headers only + decode on a chunked, coded message
+			c = base
+			c.Msg, c.HeadersOnly, c.Decode = resSpec, true, true
+			c.Msg.Framing, c.Msg.Encoding = "chunked", "gzip"
+			cs = append(cs, c)
+		}
+		if logger == "marbl" {
+			for _, k := range []int{1, 5, 9, 13} {
+				for _, forever := range []bool{false, true} {
+					for _, spec := range []msggen.Spec{reqSpec, resSpec} {
+						c := base
+						c.Msg, c.SinkFail, c.SinkFailForever = spec, k, forever
+						cs = append(cs, c)
+					}
+				}
+			}
+		}
+		if logger == "text" {
+			c := base
+			c.Msg, c.DefaultSink = reqSpec, true
+			c.Msg.Headers = []msggen.HV{{Name: "X-Discount", Value: "100%x off"}}
+			cs = append(cs, c)
+		}
+		for _, c := range cs {
+			if !yield(c) {
+				return
 			}
 		}
 	}
